@@ -5,6 +5,7 @@ import vlib
 from vlib import CheckError
 
 REVOKE = ("remove", "replace", "setkey")
+UNOBSERVED = 4294967295
 
 
 class Prop:
@@ -17,7 +18,7 @@ class Prop:
             "(no session, initiation sent with 1/3 packets staged, initiation received, one key in either role, two keys "
             "prev+cur / cur+next, two keys + pending handshake, staged without endpoint, down, down/up) x 11 revocations "
             "(remove, remove of an endpoint-less peer, replace_peers, replace+re-add, remove+re-add, private_key new / same / "
-            "onto the peer's key / onto a bystander's key / new-and-back, self-peer add) x 30 probes (TUN to old prefixes, "
+            "onto the peer's key / onto a bystander's key / new-and-back, self-peer add, private_key + peer sections incl. the device's own new key in ONE set operation) x 30 probes (TUN to old prefixes, "
             "transport under every session made so far, response to every captured initiation, fresh initiation for old and "
             "new identity, full new handshakes, old sessions again), plus random plans from one PRNG; thorough adds rounds of "
             "{initiation or TUN packet in flight || remove=true}; non-trivial = at least one revocation that hits a peer "
@@ -53,7 +54,9 @@ class Prop:
             "actions_not_applicable": sum(c.get("skipped", 0) for c in cases),
             "steps_not_settled": sum(c.get("slow", 0) for c in cases),
             "stuck": [c["stuck"] for c in cases if c.get("stuck")][:5],
-            "race_rounds": sum(1 for c in races if c["race"]["kind"] not in ("drain", "inside-batch")),
+            "race_rounds": sum(1 for c in races if c["race"]["kind"] not in ("drain", "inside-batch", "timer-callback")),
+            "timer_callback_rounds": sum(1 for c in races if c["race"]["kind"] == "timer-callback"),
+            "timer_callback_removal_returned_while_send_parked": sum(1 for c in races if c["race"].get("removal_returned_while_send_parked")),
             "inside_batch_rounds": sum(1 for c in races if c["race"]["kind"] == "inside-batch"),
             "race_ghost_index_entries": sum(1 for c in races if c["race"]["ghost_entries"] > 0),
             "race_datagram_after_return": sum(1 for c in races if c["race"]["datagrams_after_return"] > 0),
@@ -115,7 +118,7 @@ class Prop:
         return fs
 
     def shrink_candidates(self, case):
-        if case.get("mode", 0) == 1 or (len(case["plan"]) == 1 and case["plan"][0].split()[0] in ("drain", "insidebatch", "race")):
+        if case.get("mode", 0) == 1 or (len(case["plan"]) == 1 and case["plan"][0].split()[0] in ("drain", "insidebatch", "race", "timercallback")):
             return
         plan = case["plan"]
         n = len(plan)
@@ -131,6 +134,8 @@ class Prop:
         if case.get("_fail"):
             f = case["_fail"]
         clause = f["pos"] % 10
+        if case.get("mode", 0) == 1 and str(case.get("gen", "")).startswith("timer-callback"):
+            return {2: "removal-timer-callback-ghost-index-entry", 1: "removal-timer-callback-datagram-after-return"}.get(clause, "removal-timer-callback-clause%d" % clause)
         if case.get("mode", 0) == 1 and str(case.get("gen", "")).startswith("inside-batch"):
             return {2: "removal-inside-tun-batch-ghost-index-entry", 1: "removal-inside-tun-batch-datagram-after-return"}.get(clause, "removal-inside-tun-batch-clause%d" % clause)
         if case.get("mode", 0) == 1 and str(case.get("gen", "")).startswith("drain"):
@@ -162,7 +167,10 @@ class Prop:
         # a revocation that found something to revoke: the step before it shows sessions / pending handshake / staged packets
         for i, s in enumerate(steps):
             if s["ev"]["k"] in REVOKE and i > 0:
-                for row in steps[i - 1]["obs"]["rows"]:
+                j = i - 1
+                while j > 0 and steps[j]["obs"]["keys"] == [UNOBSERVED]:
+                    j -= 1
+                for row in steps[j]["obs"]["rows"]:
                     if any(row[2:6]) or row[8]:
                         hit = True
         return hit and effects >= 3
